@@ -136,7 +136,14 @@ class DateTime(datetime.datetime, Date):
         if dt.tzinfo is not None and tz is not None:
             # Keep the instant: some tzinfo implementations (pytz) do not
             # record which occurrence of a repeated time is meant in ``fold``.
-            dt = datetime.datetime.astimezone(dt, tz)
+            if dt.tzinfo is tz:
+                # astimezone() hands the value back untouched in that case,
+                # also when its wall time does not exist in the timezone
+                dt = tz.fromutc(
+                    (dt.replace(tzinfo=None) - dt.utcoffset()).replace(tzinfo=tz)
+                )
+            else:
+                dt = datetime.datetime.astimezone(dt, tz)
 
         return cls.create(
             dt.year,
